@@ -36,6 +36,28 @@ MUTANTS = [
  dict(id='c19-revert-F2', prop='C19', file=UNWRAP, old='if start >= end {', new='if start > end {', what='F2 re-introduced'),
  dict(id='c19-revert-F3', prop='C19', file=EMPTY, old="if bytes.get(byte_pos) != Some(&b'\\n') || !is_line_head(bytes, byte_pos) {", new="if bytes.get(byte_pos) != Some(&b'\\n') {", what='F3 re-introduced (empty line remover half)'),
  dict(id='c19-nextline-eats-one-more', prop='C19', file=NEXT, old='(byte_pos, line_break_pos)', new='(byte_pos, line_break_pos + 2)', what='NextLineBreakRemover removes one character too many'),
+ dict(id='c19-child-merge-needs-both-ends', prop='C19', file=REMOVER, old='if marker.contains(&child_marker.start) || marker.contains(&child_marker.end) {', new='if marker.contains(&child_marker.start) && marker.contains(&child_marker.end) {',
+      what='a ready child that only touches the wrapper part of an unwrap-block is no longer merged into it'),
+ dict(id='c19-revert-F3-nextline-half', prop='C19', file=NEXT, old="        if !is_line_head(bytes, byte_pos) {\n            return (byte_pos, byte_pos);\n        }\n", new='', what='F3 re-introduced (next-line-break remover half)'),
+ dict(id='c19-revert-F4', prop='C19', file='chiritori/src/element_parser.rs', old="""                            State::NameBegin => match current_char {
+                                ' ' | '\\n' => {}""", new="""                            State::NameBegin => match current_char {
+                                ' ' => {}""", what='F4 re-introduced (line break before an attribute name becomes part of the name)'),
+ dict(id='c19-verdict-cache-without-time', prop='C19', file=EV, old='''    fn is_removal(&self, start_el: &Element) -> bool {
+        let expires_attr''', new='''    fn is_removal(&self, start_el: &Element) -> bool {
+        thread_local! { static MEMO: std::cell::RefCell<std::collections::HashMap<String, bool>> = std::cell::RefCell::new(std::collections::HashMap::new()); }
+        let key = format!("{:?}|{}", start_el.attrs.iter().map(|a| (a.name, a.value)).collect::<Vec<_>>(), self.time_offset);
+        if let Some(v) = MEMO.with(|m| m.borrow().get(&key).copied()) {
+            return v;
+        }
+        let v = self.is_removal_uncached(start_el);
+        MEMO.with(|m| m.borrow_mut().insert(key, v));
+        v
+    }
+}
+
+impl TimeLimitedEvaluator {
+    fn is_removal_uncached(&self, start_el: &Element) -> bool {
+        let expires_attr''', what='thread-local memo of the verdict keyed without the current time: only a library session shows it'),
  dict(id='c19-unwrap-needs-three-lines', prop='C19', file=UNWRAP, old='if start >= end {', new='if start > end + 1 {', what='unwrap needs a non-empty body'),
  dict(id='c19-truncate-before-read', prop='C19', file=MAIN, old='    let mut content = String::new();\n    if args.filename.is_none() {', new='    let mut content = String::new();\n    let _early = args.output.as_ref().map(|f| File::create(f).expect("file not found"));\n    if args.filename.is_none() {',
       what='output opened (truncated) before the input is read: fatal for in-place use'),
